@@ -222,6 +222,10 @@ WIDE = {
     'LCS': [186.5e12 + i * 1.5e12 for i in range(12)],        # 186.5 .. 203 THz: channels below and above the pumps
     'C': [191.5e12 + i * 0.5e12 for i in range(9)],
     'S_only': [197e12 + i * 1e12 for i in range(7)],
+    # 12-channel combs (same count as LCS) entirely below the pumps / straddling them: crossed one after the other on the
+    # same fibre object
+    'C12': [191.5e12 + i * 0.4e12 for i in range(12)],
+    'S12': [196.5e12 + i * 0.6e12 for i in range(12)],
 }
 PUMP_SETS = {
     'std': PUMPS,
@@ -247,28 +251,33 @@ def run_element(case):
     net = c.load_network(c.build_topology(['A', 'B'], [('A', 'B', [el], None)]), equipment)
     fib = next(n for n in net.nodes() if n.uid.startswith('A>B:0'))
     fib.ref_pch_in_dbm = 0.0
-    f = np.array(WIDE[case['comb']])
-    n = len(f)
-    sr, ar, nr = (np.full(n, 0.97), np.full(n, 0.02), np.full(n, 0.01)) if case['noisy'] else (np.ones(n), np.zeros(n), np.zeros(n))
     from gnpy.core.info import SpectralInformation
-    si = SpectralInformation(frequency=f, baud_rate=np.full(n, 64e9), slot_width=np.full(n, 100e9),
-                             pch=np.full(n, 1e-3 * 10 ** (case['level'] / 10)), signal_ratio=sr, ase_ratio=ar, nli_ratio=nr,
-                             roll_off=np.full(n, 0.1), chromatic_dispersion=np.zeros(n), pmd=np.zeros(n), pdl=np.zeros(n),
-                             latency=np.zeros(n), delta_pdb_per_channel=np.zeros(n), tx_osnr=np.full(n, 40.0),
-                             tx_power=np.full(n, 1e-3), label=np.full(n, 'x'))
-    c.set_sim_params(SIMS[case['sim']])
-    try:
-        pre = c.snap(si)
-        out = fib(si)
-        post = c.snap(out)
-    finally:
-        c.set_sim_params({})
-    kinds = judge_step({'pre': pre, 'post': post, 'cls': type(fib).__name__}, viol,
-                       f'{type(fib).__name__} {case}')
+    kinds = set()
+    # 'before': combs crossed earlier on the same fibre object (a fibre is used for many propagations)
+    for step, comb_name in enumerate(list(case.get('before', [])) + [case['comb']]):
+        f = np.array(WIDE[comb_name])
+        n = len(f)
+        sr, ar, nr = (np.full(n, 0.97), np.full(n, 0.02), np.full(n, 0.01)) if case['noisy'] else \
+            (np.ones(n), np.zeros(n), np.zeros(n))
+        si = SpectralInformation(frequency=f, baud_rate=np.full(n, 64e9), slot_width=np.full(n, 100e9),
+                                 pch=np.full(n, 1e-3 * 10 ** (case['level'] / 10)), signal_ratio=sr, ase_ratio=ar, nli_ratio=nr,
+                                 roll_off=np.full(n, 0.1), chromatic_dispersion=np.zeros(n), pmd=np.zeros(n), pdl=np.zeros(n),
+                                 latency=np.zeros(n), delta_pdb_per_channel=np.zeros(n), tx_osnr=np.full(n, 40.0),
+                                 tx_power=np.full(n, 1e-3), label=np.full(n, 'x'))
+        c.set_sim_params(SIMS[case['sim']])
+        try:
+            pre = c.snap(si)
+            out = fib(si)
+            post = c.snap(out)
+        finally:
+            c.set_sim_params({})
+        kinds |= set(judge_step({'pre': pre, 'post': post, 'cls': type(fib).__name__}, viol,
+                                f'{type(fib).__name__} crossing {step + 1} (comb {comb_name}) of {case}'))
     for v in viol:
         v['case'] = case
-    return {'violations': viol, 'transitions': 1, 'traces': 0 if viol else 1, 'nontrivial': True,
-            'tags': dict({k: 1 for k in kinds}, **{'element-driver': 1}), 'sample': case}
+    return {'violations': viol, 'transitions': 1 + len(case.get('before', [])), 'traces': 0 if viol else 1, 'nontrivial': True,
+            'tags': dict({k: 1 for k in kinds}, **{'element-driver': 1, 'element-history': int(bool(case.get('before')))}),
+            'sample': case}
 
 
 def run_case(case):
@@ -290,10 +299,16 @@ def main(rep, tier, seed):
                                                                     ['raman_gn', 'raman_numerical'], [80.0, 40.0]):
         cases.append(dict(kind='element', comb=comb, pumps=pumps, level=level, noisy=noisy, sim=sim, length=length,
                           kind_el='RamanFiber'))
+    n_hist = 0
+    for a, b in itertools.permutations(['LCS', 'C12', 'S12'], 2):
+        for pumps, sim in itertools.product(['std', 'LC', 'co'], ['raman_gn', 'raman_numerical']):
+            cases.append(dict(kind='element', comb=b, before=[a], pumps=pumps, level=0.0, noisy=False, sim=sim, length=80.0,
+                              kind_el='RamanFiber'))
+            n_hist += 1
     results, stats = engine.run_pool('checks.c02', cases, horizon=900)
     rep.absorb(results)
     rep.cov['bound'] = bound + f' over {list(SPACE)}; every simple trx-to-trx path of each designed network; + {3 * 4 * 2 * 2 * 2 * 2} ' \
-        'single-fibre crossings with wide multi-band combs x pump sets'
+        'single-fibre crossings with wide multi-band combs x pump sets; + ' + str(n_hist) + ' two-comb histories on one RamanFiber object'
     rep.cov['space_size'] = len(cases)
     rep.cov['exhaustive'] = not stats['budget_hit'] and len(results) == len(cases)
     rep.cov['rule'] = ('a case = one designed network (real designed_network) and the real request.propagate over every simple '
